@@ -400,7 +400,13 @@ def run_partition_case(case, prop):
                     if case.get("chain") and pars_last:
                         # a single deep path: split a child of the cell split last
                         kids = pars_last[-1].children
-                        x = kids[-1] if case["chain"] == "last" else kids[int(rng.integers(len(kids)))]
+                        if case["chain"] == "origin":
+                            # follow the cell that contains (or is nearest to) the origin: cells straddling zero
+                            def dist0(k):
+                                return sum(0.0 if lo <= 0.0 <= hi else min(abs(lo), abs(hi)) for lo, hi in k.domain)
+                            x = min(kids, key=dist0)
+                        else:
+                            x = kids[-1] if case["chain"] == "last" else kids[int(rng.integers(len(kids)))]
                     else:
                         lv = [x for l in P.node_list for x in l if x.children is None]
                         x = lv[int(rng.integers(len(lv)))]
